@@ -50,6 +50,9 @@ partial def toExpr : SExp → Option Expr
   | .list [.atom "or", a, b] => do some (.or (← toExpr a) (← toExpr b))
   | .list [.atom "not", a] => do some (.not (← toExpr a))
   | .list [.atom "ite", c, a, b] => do some (.ite (← toExpr c) (← toExpr a) (← toExpr b))
+  | .list [.atom "abs", a] => do some (.abs (← toExpr a))
+  | .list [.atom "min", a, b] => do some (.mm .min (← toExpr a) (← toExpr b))
+  | .list [.atom "max", a, b] => do some (.mm .max (← toExpr a) (← toExpr b))
   | _ => none
 
 partial def toStmt : SExp → Option Stmt
